@@ -101,7 +101,19 @@ def specKindTable : List (String × JoinKind) := [
   ("semi", .leftSemi), ("leftsemi", .leftSemi), ("left_semi", .leftSemi),
   ("anti", .leftAnti), ("leftanti", .leftAnti), ("left_anti", .leftAnti)]
 
-def specKindOf (how : String) : Option JoinKind := (specKindTable.find? (·.1 = how)).map (·.2)
+/-- `JoinType.apply` first does `typ.toLowerCase(Locale.ROOT).replace("_", "")`. ASCII lower-casing is the model of
+    both Java's and Python's lower-casing here (shared primitive `Gen.strLower`: the only non-ASCII character that
+    lower-cases to an ASCII letter is U+212A → `k`, and no spelling contains a `k`). -/
+def specCanon (how : String) : String := strRemoveChar '_' (strLower how)
+
+/-- the `match` of `JoinType.apply` on the canonical string -/
+def specKindCanon : List (String × JoinKind) := [
+  ("inner", .inner), ("outer", .fullOuter), ("full", .fullOuter), ("fullouter", .fullOuter),
+  ("leftouter", .leftOuter), ("left", .leftOuter), ("rightouter", .rightOuter), ("right", .rightOuter),
+  ("leftsemi", .leftSemi), ("semi", .leftSemi), ("leftanti", .leftAnti), ("anti", .leftAnti), ("cross", .cross)]
+
+/-- the join PySpark performs for ANY string given as `how` (`none`: PySpark raises "Unsupported join type") -/
+def specKindOf (how : String) : Option JoinKind := (specKindCanon.find? (·.1 = specCanon how)).map (·.2)
 
 /-- PySpark runs a cross join that has a condition as an inner join -/
 def specKindWithOn (k : JoinKind) : JoinKind := if k = .cross then .inner else k
